@@ -238,6 +238,14 @@ class AstToODataVisitor(visitor.NodeVisitor):
         """
         res = self.visit(node)
 
+        if (
+            isinstance(node, ast.Identifier)
+            and not node.namespace
+            and node.name.lower() == "not"
+        ):
+            # A field called `not` followed by a blank reads as the operator.
+            return "(" + res + ")"
+
         if hasattr(node, "op"):
             node_op = type(node.op)  # type: ignore
         elif hasattr(node, "comparator"):
